@@ -126,6 +126,7 @@ def generate(repo, registry, contract, variant=None, fnode_override=None, opts=N
             raise CheckerError("path limit %d exceeded in %s" % (contract.max_paths, contract.label))
         I = Exec(repo, registry, forced, vcs, unit_label(contract, variant), opts=dict(opts or {}))
         I.opts.setdefault("force_inline", contract.inline_callees)
+        I.opts["externals"] = contract.externals
         if fnode_override is not None:
             I.opts["override"] = {contract.key: fnode_override}
         try:
